@@ -285,6 +285,17 @@ Step(s, op) ==
          ELSE {Out(Reported(s, op.t, inv), "ok", TRUE, FALSE),
                Out(Reported(s, op.t, inv), "Error", FALSE, FALSE)}
               \cup (IF MustReport(L, inv) THEN {} ELSE {Out(s, "ok", FALSE, FALSE)})
+              \* level 0: the marked line shows the fields it could not write by reading them,
+              \* which decodes them as Get does (see above)
+              \cup (IF L.lvl = 0
+                    THEN {Out([WithCp(s, op.t,
+                                 [L EXCEPT !.fields = [f \in DOMAIN @ |->
+                                                        IF f \in inv
+                                                        THEN Field(@[f].dt, IF v THEN "valid" ELSE @[f].cls, s.nv)
+                                                        ELSE @[f]],
+                                           !.rep = IF v THEN {} ELSE inv])
+                                 EXCEPT !.nv = s.nv + 1], "ok", TRUE, TRUE) : v \in BOOLEAN}
+                    ELSE {})
     [] op.k = "validate" ->
          LET inv == InvalidFields(L) IN
          IF inv = {} THEN {Out(s, "ok", FALSE, FALSE)}
